@@ -862,7 +862,14 @@ func c02Reader(c *fw.Ctx) fw.Outcome {
 	model := vttGenModel(c.R, false)
 	for k := 0; k < 4; k++ {
 		o := vttGenRender(c.R)
+		mixed := c.R.P(1, 6)
+		if mixed {
+			o.eol = "\n"
+		}
 		doc := vttRenderDoc(model, o, c.R)
+		if mixed {
+			doc, o.eol = mixEOL(c.R, doc), "mixed"
+		}
 		key := fw.HashBytes(doc)
 		var got *astisub.Subtitles
 		var err error
